@@ -89,6 +89,12 @@ pub fn worker(ctx: &Ctx) {
             }
             tx.commit().map_err(|e| format!("commit: {}", e))?;
         }
+        // the holder looks at its own file through a second, short-lived descriptor (a backup copy would):
+        // locks that belong to the process rather than to the open file would be given up here
+        {
+            let alias = path.with_file_name("alias.db");
+            let _ = std::fs::read(if alias.exists() { &alias } else { &path });
+        }
         if hold_us > 0 {
             std::thread::sleep(std::time::Duration::from_micros(hold_us));
         }
@@ -131,6 +137,9 @@ pub struct Proc {
     /// and the harness sends it this many signals (1 ms apart) while it is presumably queued on the lock
     #[serde(default)]
     pub signals: u32,
+    /// this opener reaches the database through another name of the same file (a symbolic link)
+    #[serde(default)]
+    pub alias: bool,
 }
 
 #[derive(Serialize, Deserialize, Debug, Clone)]
@@ -152,7 +161,7 @@ pub fn forced_cases(thorough: bool) -> Vec<Case> {
                 continue; // an existing file is not written during open
             }
             for b_waits_for in [None, Some("before_mmap#0")] {
-                let a = Proc { signals: 0, fail_init: false, soft_ms: 0, delay_us: 0, hold_us: 300, gates: vec![(ap.to_string(), "B-opened".into(), format!("A-at-{}", ai)), ("before_mmap#0".into(), String::new(), "A-at-mmap".into())] };
+                let a = Proc { alias: false, signals: 0, fail_init: false, soft_ms: 0, delay_us: 0, hold_us: 300, gates: vec![(ap.to_string(), "B-opened".into(), format!("A-at-{}", ai)), ("before_mmap#0".into(), String::new(), "A-at-mmap".into())] };
                 let mut bg = vec![("after_open#0".to_string(), String::new(), "B-opened".to_string())];
                 if let Some(p) = b_waits_for {
                     if *ap == p {
@@ -161,16 +170,16 @@ pub fn forced_cases(thorough: bool) -> Vec<Case> {
                     // B continues past its open64 only after A has reached its mmap (i.e. holds the lock in correct code)
                     bg = vec![("after_open#0".to_string(), "A-at-mmap".to_string(), "B-opened".to_string())];
                     // then A must not wait for B (it would never come): A only signals
-                    let a2 = Proc { signals: 0, fail_init: false, soft_ms: 0, delay_us: 0, hold_us: 2000, gates: vec![(ap.to_string(), String::new(), format!("A-at-{}", ai)), ("before_mmap#0".into(), String::new(), "A-at-mmap".into())] };
-                    v.push(Case { label: format!("existing={} A passes {}; B held after its open64 until A maps", existing, ap), existing, procs: vec![a2, Proc { signals: 0, fail_init: false, soft_ms: 0, delay_us: 100, hold_us: 100, gates: bg }] });
+                    let a2 = Proc { alias: false, signals: 0, fail_init: false, soft_ms: 0, delay_us: 0, hold_us: 2000, gates: vec![(ap.to_string(), String::new(), format!("A-at-{}", ai)), ("before_mmap#0".into(), String::new(), "A-at-mmap".into())] };
+                    v.push(Case { label: format!("existing={} A passes {}; B held after its open64 until A maps", existing, ap), existing, procs: vec![a2, Proc { alias: false, signals: 0, fail_init: false, soft_ms: 0, delay_us: 100, hold_us: 100, gates: bg }] });
                     continue;
                 }
-                v.push(Case { label: format!("existing={} A held at {} until B's open64 returned", existing, ap), existing, procs: vec![a, Proc { signals: 0, fail_init: false, soft_ms: 0, delay_us: 200, hold_us: 100, gates: bg.clone() }] });
+                v.push(Case { label: format!("existing={} A held at {} until B's open64 returned", existing, ap), existing, procs: vec![a, Proc { alias: false, signals: 0, fail_init: false, soft_ms: 0, delay_us: 200, hold_us: 100, gates: bg.clone() }] });
                 if thorough || ai % 2 == 0 {
                     // three processes: C arrives while A is held as well
-                    let a3 = Proc { signals: 0, fail_init: false, soft_ms: 0, delay_us: 0, hold_us: 300, gates: vec![(ap.to_string(), "C-opened".into(), format!("A-at-{}", ai))] };
-                    let b3 = Proc { signals: 0, fail_init: false, soft_ms: 0, delay_us: 150, hold_us: 200, gates: vec![("after_open#0".into(), String::new(), "B-opened".into())] };
-                    let c3 = Proc { signals: 0, fail_init: false, soft_ms: 0, delay_us: 300, hold_us: 100, gates: vec![("after_open#0".into(), "B-opened".into(), "C-opened".into())] };
+                    let a3 = Proc { alias: false, signals: 0, fail_init: false, soft_ms: 0, delay_us: 0, hold_us: 300, gates: vec![(ap.to_string(), "C-opened".into(), format!("A-at-{}", ai))] };
+                    let b3 = Proc { alias: false, signals: 0, fail_init: false, soft_ms: 0, delay_us: 150, hold_us: 200, gates: vec![("after_open#0".into(), String::new(), "B-opened".into())] };
+                    let c3 = Proc { alias: false, signals: 0, fail_init: false, soft_ms: 0, delay_us: 300, hold_us: 100, gates: vec![("after_open#0".into(), "B-opened".into(), "C-opened".into())] };
                     v.push(Case { label: format!("existing={} three processes, A held at {} until B and C called open64", existing, ap), existing, procs: vec![a3, b3, c3] });
                 }
             }
@@ -181,35 +190,41 @@ pub fn forced_cases(thorough: bool) -> Vec<Case> {
     // the size is read the second opener cannot get that far, the soft timeout expires and the run
     // proceeds normally; if the size is read outside the exclusive lock the ordering happens.
     for existing in [false] {
-        let a = Proc { signals: 0, fail_init: false, soft_ms: 300, delay_us: 0, hold_us: 200, gates: vec![("after_stat#0".into(), "B-looked".into(), "A-looked".into())] };
-        let b = Proc { signals: 0, fail_init: false, soft_ms: 300, delay_us: 150, hold_us: 200, gates: vec![("after_stat#0".into(), "A-looked".into(), "B-looked".into())] };
+        let a = Proc { alias: false, signals: 0, fail_init: false, soft_ms: 300, delay_us: 0, hold_us: 200, gates: vec![("after_stat#0".into(), "B-looked".into(), "A-looked".into())] };
+        let b = Proc { alias: false, signals: 0, fail_init: false, soft_ms: 300, delay_us: 150, hold_us: 200, gates: vec![("after_stat#0".into(), "A-looked".into(), "B-looked".into())] };
         v.push(Case { label: "two openers both look at the empty file's size before either initialises it".into(), existing, procs: vec![a.clone(), b.clone()] });
-        let c = Proc { signals: 0, fail_init: false, soft_ms: 300, delay_us: 250, hold_us: 100, gates: vec![("after_stat#0".into(), "B-looked".into(), "C-looked".into())] };
+        let c = Proc { alias: false, signals: 0, fail_init: false, soft_ms: 300, delay_us: 250, hold_us: 100, gates: vec![("after_stat#0".into(), "B-looked".into(), "C-looked".into())] };
         v.push(Case { label: "three openers all look at the empty file's size before any initialises it".into(), existing, procs: vec![a, b, c] });
-        let a2 = Proc { signals: 0, fail_init: false, soft_ms: 400, delay_us: 0, hold_us: 100, gates: vec![("after_stat#0".into(), "B-closing".into(), "A-looked".into())] };
-        let b2 = Proc { signals: 0, fail_init: false, soft_ms: 0, delay_us: 300, hold_us: 100, gates: vec![("before_close#0".into(), String::new(), "B-closing".into())] };
+        let a2 = Proc { alias: false, signals: 0, fail_init: false, soft_ms: 400, delay_us: 0, hold_us: 100, gates: vec![("after_stat#0".into(), "B-closing".into(), "A-looked".into())] };
+        let b2 = Proc { alias: false, signals: 0, fail_init: false, soft_ms: 0, delay_us: 300, hold_us: 100, gates: vec![("before_close#0".into(), String::new(), "B-closing".into())] };
         v.push(Case { label: "an opener that has seen an empty file is held until another opener has created, used and closed the database".into(), existing, procs: vec![a2, b2] });
         // an opener whose initialisation fails (file-size limit) while a second one is queued on the lock and a
         // third arrives later: the failure of the first must not let the other two in together
-        let x = Proc { signals: 0, fail_init: true, soft_ms: 300, delay_us: 0, hold_us: 0, gates: vec![("after_stat#0".into(), "Y-opened".into(), "X-looked".into())] };
-        let y = Proc { signals: 0, fail_init: false, soft_ms: 0, delay_us: 300, hold_us: 4000, gates: vec![("after_open#0".into(), String::new(), "Y-opened".into())] };
-        let z = Proc { signals: 0, fail_init: false, soft_ms: 0, delay_us: 2500, hold_us: 300, gates: vec![] };
+        let x = Proc { alias: false, signals: 0, fail_init: true, soft_ms: 300, delay_us: 0, hold_us: 0, gates: vec![("after_stat#0".into(), "Y-opened".into(), "X-looked".into())] };
+        let y = Proc { alias: false, signals: 0, fail_init: false, soft_ms: 0, delay_us: 300, hold_us: 4000, gates: vec![("after_open#0".into(), String::new(), "Y-opened".into())] };
+        let z = Proc { alias: false, signals: 0, fail_init: false, soft_ms: 0, delay_us: 2500, hold_us: 300, gates: vec![] };
         v.push(Case { label: "the first opener fails to initialise the file while a second is queued on the lock; a third arrives later".into(), existing, procs: vec![x, y, z] });
     }
     // an opener held just BEFORE its open(2) of the path (after anything it may have learnt about the path
     // earlier) until another opener has created the database, committed to it and is about to close it
     {
-        let b = Proc { signals: 0, fail_init: false, soft_ms: 0, delay_us: 0, hold_us: 100, gates: vec![("before_open#0".into(), "A-closing".into(), "B-parked".into())] };
-        let a = Proc { signals: 0, fail_init: false, soft_ms: 0, delay_us: 0, hold_us: 300, gates: vec![("before_open#0".into(), "B-parked".into(), String::new()), ("before_close#0".into(), String::new(), "A-closing".into())] };
+        let b = Proc { alias: false, signals: 0, fail_init: false, soft_ms: 0, delay_us: 0, hold_us: 100, gates: vec![("before_open#0".into(), "A-closing".into(), "B-parked".into())] };
+        let a = Proc { alias: false, signals: 0, fail_init: false, soft_ms: 0, delay_us: 0, hold_us: 300, gates: vec![("before_open#0".into(), "B-parked".into(), String::new()), ("before_close#0".into(), String::new(), "A-closing".into())] };
         v.push(Case { label: "an opener is held before its open(2) of a path that does not exist yet until another has created, used and is closing the database".into(), existing: false, procs: vec![b.clone(), a.clone()] });
         // the same while the creator is still in the middle of initialising the file
-        let a2 = Proc { signals: 0, fail_init: false, soft_ms: 0, delay_us: 0, hold_us: 2000, gates: vec![("before_open#0".into(), "B-parked".into(), String::new()), ("after_write#0".into(), String::new(), "A-closing".into())] };
+        let a2 = Proc { alias: false, signals: 0, fail_init: false, soft_ms: 0, delay_us: 0, hold_us: 2000, gates: vec![("before_open#0".into(), "B-parked".into(), String::new()), ("after_write#0".into(), String::new(), "A-closing".into())] };
         v.push(Case { label: "an opener is held before its open(2) of a path that does not exist yet until another is initialising the file".into(), existing: false, procs: vec![b, a2] });
+    }
+    // a holder that stays inside for seconds: the second opener must wait that long, not give up and not walk in
+    {
+        let a = Proc { alias: false, signals: 0, fail_init: false, soft_ms: 0, delay_us: 0, hold_us: 3_000_000, gates: vec![("before_mmap#0".into(), String::new(), "A-at-mmap".into())] };
+        let b = Proc { alias: false, signals: 0, fail_init: false, soft_ms: 0, delay_us: 0, hold_us: 100, gates: vec![("before_open#0".into(), "A-at-mmap".into(), String::new())] };
+        v.push(Case { label: "the holder keeps the database for three seconds while a second opener is queued".into(), existing: true, procs: vec![a, b] });
     }
     // an opener queued on the lock is hit by signals (handler without SA_RESTART); it retries interrupted opens
     for (existing, n) in [(true, 2u32), (false, 3), (true, 6)] {
-        let a = Proc { signals: 0, fail_init: false, soft_ms: 0, delay_us: 0, hold_us: 25_000, gates: vec![("before_mmap#0".into(), String::new(), "A-at-mmap".into())] };
-        let b = Proc { signals: n, fail_init: false, soft_ms: 0, delay_us: 0, hold_us: 100, gates: vec![("before_open#0".into(), "A-at-mmap".into(), String::new())] };
+        let a = Proc { alias: false, signals: 0, fail_init: false, soft_ms: 0, delay_us: 0, hold_us: 25_000, gates: vec![("before_mmap#0".into(), String::new(), "A-at-mmap".into())] };
+        let b = Proc { alias: false, signals: n, fail_init: false, soft_ms: 0, delay_us: 0, hold_us: 100, gates: vec![("before_open#0".into(), "A-at-mmap".into(), String::new())] };
         v.push(Case { label: format!("existing={} an opener queued on the lock receives {} signals", existing, n), existing, procs: vec![a, b] });
     }
     v
@@ -238,8 +253,12 @@ pub fn run_case(c: &Case, dir: &Path, exe: &Path, shim: &str, n: u64) -> Outcome
             return o;
         }
     }
+    // another name for the same file (dangling until the database is created)
+    let alias = sub.join("alias.db");
+    let _ = std::os::unix::fs::symlink("shared.db", &alias);
     let mut children = Vec::new();
     for (i, p) in c.procs.iter().enumerate() {
+        let db = if p.alias { alias.clone() } else { db.clone() };
         let gates: Vec<String> = p
             .gates
             .iter()
@@ -397,7 +416,7 @@ pub fn run(ctx: &Ctx) -> Shard {
         for _ in 0..n {
             let k = 2 + rng.usize(2);
             let existing = rng.chance(1, 2);
-            let procs = (0..k).map(|_| Proc { signals: 0, fail_init: false, soft_ms: 0, delay_us: rng.below(3000), hold_us: rng.below(5000), gates: vec![] }).collect();
+            let procs = (0..k).map(|pi| Proc { alias: pi == 1 && rng.chance(1, 2), signals: 0, fail_init: false, soft_ms: 0, delay_us: rng.below(3000), hold_us: rng.below(5000), gates: vec![] }).collect();
             cases.push(Case { label: format!("{} processes, seeded offsets, existing={}", k, existing), existing, procs });
         }
     }
